@@ -215,6 +215,11 @@ impl<'a> ReplyVariants<'a> for MsgVariants<'a, GenericParam> {
                             },
                         )
                     }
+                    Some(existing_data) if existing_data.handler_id != handler_id => {
+                        emit_error!(handler_id.span(), "Ambiguous reply handler name.";
+                            note = existing_data.handler_id.span() => format!("Handlers `{}` and `{}` are different names, but both generate the `{}` reply id.", existing_data.handler_id, handler_id, reply_id);
+                        )
+                    }
                     Some(existing_data) => existing_data.merge(handler),
                     None => reply_data.push(ReplyData::new(reply_id, handler,  handler_id)),
                 }
